@@ -162,6 +162,12 @@ def _traverse_and_extract(
     if "always" in node:
         _extract_from_transition(node["always"], actions, guards)
 
+    # 🏁 Process the state's own `onDone` transition (compound / parallel
+    #    completion). It was skipped, so an action or guard named only there
+    #    got no stub and the generated logic failed to bind it.
+    if "onDone" in node:
+        _extract_from_transition(node["onDone"], actions, guards)
+
     # ⏳ Process delayed "after" transitions
     if "after" in node and isinstance(node["after"], dict):
         for transition_data in node["after"].values():
